@@ -232,6 +232,46 @@ func runC01(c *runCtx) error {
 		c01Case(e, pred, feqStore(numVals))
 		c01Case(e, pred, feqStore(mixVals))
 	}
+	// large stores with sparse matches (more than a thousand consecutive rejected pairs between
+	// two accepted ones: scan budgets, refill loops, early end-of-result), and long key lists
+	// (65, 66, 129 listed keys, alone and OR-ed / AND-ed with other key atoms: any threshold on
+	// the number of point reads)
+	{
+		big := func(n int, hits map[int]bool) [][2]string {
+			out := make([][2]string, n)
+			for i := range out {
+				v := "miss"
+				if hits[i] {
+					v = "hit"
+				}
+				out[i] = [2]string{fmt.Sprintf("k%04d", i), v}
+			}
+			return out
+		}
+		sizes := []int{1100, 2200}
+		if c.thorough() {
+			sizes = []int{1025, 1100, 2200, 4200}
+		}
+		for _, n := range sizes {
+			st := big(n, map[int]bool{3: true, n - 100: true, n - 1: true})
+			c01Case(e, "value = 'hit'", st)
+			c01Case(e, "value = 'hit' | key = 'k0000'", st)
+			c01Case(e, "key > 'k0001' & value = 'hit'", st)
+		}
+		st := big(200, map[int]bool{5: true, 77: true, 150: true, 199: true})
+		for _, n := range []int{65, 66, 129} {
+			ks := make([]string, n)
+			for i := range ks {
+				ks[i] = fmt.Sprintf("'k%04d'", (i*7)%200) // not in key order, some keys twice for n > 100
+			}
+			in := "key in (" + strings.Join(ks, ", ") + ", 'nokey')"
+			c01Case(e, in, st)
+			c01Case(e, in+" | key = 'k0199'", st)
+			c01Case(e, "("+in+") & value = 'hit'", st)
+			c01Case(e, in+" | key in ('k0198', 'k0001')", st)
+			c01Case(e, "("+in+") & key in ('k0007', 'k0014', 'k0150', 'zz')", st)
+		}
+	}
 	// the same predicates as query TEXTS through the whole pipeline (Model/Pipeline.v)
 	pbRun(c, e, r, genPred, katoms)
 	return e.flush()
